@@ -9,7 +9,7 @@ enumeration of supplied values over the structured AST (switch / if / ?: /
 return / throw), as described in DESIGN.md section 3.3 ("finite enumerations").
 """
 from .frontend import AnalysisBroken
-from .program import children, strip, decode_string_literal, locstr
+from .program import children, strip, decode_string_literal, locstr, walk
 
 
 class _Unknown:
@@ -497,12 +497,59 @@ class Evaluator:
 
     def call_stmt(self, x, env, trace):
         """Hook for statement-level calls (e.g. to model callee outcomes)."""
+        d, qn, virt, recv = self.prog.resolve_callee(self.tu, x)
         if self.call_hook is not None:
-            d, qn, virt, recv = self.prog.resolve_callee(self.tu, x)
             r = self.call_hook(self, qn, children(x)[1:], env, x, stmt=True)
             if isinstance(r, list):
                 return [(o, env) if isinstance(o, Outcome) else (None, env) for o in r]
-        return None
+        return self.inline_checker(qn, children(x)[1:], env, trace)
+
+    def inline_checker(self, qn, args, env, trace):
+        """A free repository function called for its effect only (`ensure_...(x);`) whose body, apart
+        from throwing, has no effect on the caller's state - it takes its arguments by value or const
+        reference and contains no call and no assignment to anything but its own locals: its throws are the
+        caller's throws.  Evaluated in place with the arguments bound; anything else is left alone."""
+        depth = getattr(self, '_inline_depth', 0)
+        if not qn or depth >= 3:
+            return None
+        gs = [g for g in self.prog.by_name(qn) if g.body is not None and not g.is_pattern and g.cls is None
+              and self.prog.in_repo(g.file)]
+        if len(gs) != 1 or len(gs[0].params) != len(args):
+            return None
+        g = gs[0]
+        if 'void' not in (g.ret or ''):
+            return None
+        for p in g.params:
+            t = p.get('type') or ''
+            if ('&' in t or '*' in t) and 'const' not in t:
+                return None
+        if not any(y.get('kind') == 'CXXThrowExpr' for y in walk(g.body)):
+            return None
+        for y in walk(g.body):
+            if y.get('kind') in ('CallExpr', 'CXXMemberCallExpr') and not any(
+                    z.get('kind') == 'CXXThrowExpr' for z in walk(y)):
+                inner = (strip(children(y)[0]).get('referencedDecl') or {}).get('name') or strip(children(y)[0]).get('name')
+                if inner not in ('has_value', 'empty', 'size', 'length', 'value', 'to_string'):
+                    return None
+        sub = Evaluator(self.prog, g, self.call_hook)
+        sub._inline_depth = depth + 1
+        env2 = {p['id']: self.ev(a, env) for p, a in zip(g.params, args)}
+        outs = []
+        for st, e in sub.exec(g.body, env2, trace):
+            if st is not None and st.kind == 'throw':
+                outs.append((st, env))
+            else:
+                outs.append((None, env))
+        # collapse identical normal completions
+        seen_normal = False
+        res = []
+        for st, e in outs:
+            if st is None:
+                if seen_normal:
+                    continue
+                seen_normal = True
+            res.append((st, e))
+        return res or None
 
     def find_throw(self, n):
         x = strip(n)
